@@ -23,10 +23,17 @@ import (
 
 func init() { props.Register("C04", props.Monitor{Level: "exploration", Run: Run}) }
 
+// Client identities used by the proxy-rig monitors.
 const (
-	owner  = "client_owner"
-	other  = "client_other"
-	nokeys = "client_nokeys"
+	Owner  = "client_owner"
+	Other  = "client_other"
+	NoKeys = "client_nokeys"
+)
+
+const (
+	owner  = Owner
+	other  = Other
+	nokeys = NoKeys
 )
 
 // Renderings of a plaintext under which its presence in a byte stream counts as a leak.
@@ -124,9 +131,10 @@ func storedLooksProtected(c proxyrig.ColSpec, stored fakepg.Value, plain proxyri
 	return ""
 }
 
-type world struct {
+// World is a proxyrig.World plus the record of plaintexts written to configured columns.
+type World struct {
 	*proxyrig.World
-	written map[string][]proxyrig.Written // table.col -> all plaintexts written in this world
+	Written map[string][]proxyrig.Written // table.col -> all plaintexts written in this world
 }
 
 // SpellingDiffs counts bytea text fields whose spelling (not value) differed from the reference.
@@ -273,8 +281,9 @@ func colClass(c proxyrig.ColSpec) string {
 	return s
 }
 
-func runSession(r *ev.Run, rng *gen.Rand, sidx int) {
-	dir := ksrig.ScratchDir("c04")
+// OpenWorld builds a keystore with keys for Owner and Other, the databases and one AcraServer per identity, and connects the owner to Acra and to the reference.
+func OpenWorld(r *ev.Run, tables []proxyrig.TableSpec, censorYAML string) (w *World, ac, rc *proxyrig.PGClient, closeAll func(), ok bool) {
+	dir := ksrig.ScratchDir("pgw")
 	ks, err := ksrig.V1(dir, ksrig.RandBytes(32), keystore.InfiniteCacheSize)
 	if err != nil {
 		panic(err)
@@ -284,37 +293,46 @@ func runSession(r *ev.Run, rng *gen.Rand, sidx int) {
 			panic(err)
 		}
 	}
-	tables := proxyrig.GenTables(rng, 1+rng.Intn(3), other, nil)
-	pw, err := proxyrig.NewWorld(proxyrig.WorldOpts{Tables: tables, KS: ks, Clients: []string{owner, other, nokeys}})
+	pw, err := proxyrig.NewWorld(proxyrig.WorldOpts{Tables: tables, KS: ks, Clients: []string{owner, other, nokeys}, CensorYAML: censorYAML})
 	if err != nil {
 		r.Violation("rig: world could not be built (generated configuration rejected)", map[string]interface{}{"err": err.Error()})
-		return
+		return nil, nil, nil, func() {}, false
 	}
-	defer pw.Close()
-	w := &world{World: pw, written: map[string][]proxyrig.Written{}}
-	ac, _, err := proxyrig.DialPG(w.Acras[owner].Port)
+	w = &World{World: pw, Written: map[string][]proxyrig.Written{}}
+	ac, _, err = proxyrig.DialPG(w.Acras[owner].Port)
 	if err != nil {
+		pw.Close()
 		r.Inconclusive("cannot connect to acra: " + err.Error())
-		return
+		return nil, nil, nil, func() {}, false
 	}
-	defer ac.Close()
-	rc, _, err := proxyrig.DialPG(w.Ref.Port())
+	rc, _, err = proxyrig.DialPG(w.Ref.Port())
 	if err != nil {
+		ac.Close()
+		pw.Close()
 		r.Inconclusive("cannot connect to reference: " + err.Error())
+		return nil, nil, nil, func() {}, false
+	}
+	return w, ac, rc, func() { ac.Close(); rc.Close(); pw.Close(); os.RemoveAll(dir) }, true
+}
+
+func runSession(r *ev.Run, rng *gen.Rand, sidx int) {
+	tables := proxyrig.GenTables(rng, 1+rng.Intn(3), other, nil)
+	w, ac, rc, closeAll, ok := OpenWorld(r, tables, "")
+	if !ok {
 		return
 	}
-	defer rc.Close()
+	defer closeAll()
 	g := proxyrig.NewSessGen(rng, tables)
 	nSteps := 5 + rng.Intn(36)
 	var history []string
 	for i := 0; i < nSteps; i++ {
 		st := g.Next()
 		history = append(history, fmt.Sprintf("[%s %s/%s/%s] %s", st.Proto, st.ParamFmt, st.ResFmt, st.Kind, trunc(st.SQL, 300)))
-		if !runStep(r, w, ac, rc, st, history, sidx) {
+		if !RunStep(r, w, ac, rc, st, history, sidx) {
 			return
 		}
 	}
-	nonOwnerReads(r, w, history, sidx)
+	NonOwnerReads(r, w, history, sidx)
 }
 
 func trunc(s string, n int) string {
@@ -324,7 +342,7 @@ func trunc(s string, n int) string {
 	return s
 }
 
-func tableSpec(w *world, name string) proxyrig.TableSpec {
+func tableSpec(w *World, name string) proxyrig.TableSpec {
 	for _, t := range w.Tables {
 		if t.Name == name {
 			return t
@@ -333,11 +351,12 @@ func tableSpec(w *world, name string) proxyrig.TableSpec {
 	return proxyrig.TableSpec{}
 }
 
-func runStep(r *ev.Run, w *world, ac, rc *proxyrig.PGClient, st proxyrig.Step, history []string, sidx int) bool {
+// RunStep sends one step through Acra and to the reference and applies the C04 oracles (stream, state, owner reply). It returns false when the session cannot continue.
+func RunStep(r *ev.Run, w *World, ac, rc *proxyrig.PGClient, st proxyrig.Step, history []string, sidx int) bool {
 	r.Case()
 	logStart := w.Store.LogLen()
 	detail := func(extra map[string]interface{}) map[string]interface{} {
-		m := map[string]interface{}{"session": sidx, "schema": w.Schema, "history": history, "statement": st.SQL, "proto_detail": st.Detail, "proto": st.Proto, "param_format": st.ParamFmt, "result_format": st.ResFmt}
+		m := map[string]interface{}{"session": sidx, "schema": w.Schema, "history": history, "statement": st.SQL, "params": st.ParamDesc, "proto_detail": st.Detail, "proto": st.Proto, "param_format": st.ParamFmt, "result_format": st.ResFmt}
 		for k, v := range extra {
 			m[k] = v
 		}
@@ -367,7 +386,11 @@ func runStep(r *ev.Run, w *world, ac, rc *proxyrig.PGClient, st proxyrig.Step, h
 		if c != nil {
 			cc = colClass(*c)
 		}
-		return fmt.Sprintf("%s: stmt=%s proto=%s params=%s results=%s column=%s", what, st.Kind, st.Proto, st.ParamFmt, st.ResFmt, cc)
+		tag := ""
+		if st.Tag != "" {
+			tag = " " + st.Tag
+		}
+		return fmt.Sprintf("%s: stmt=%s proto=%s params=%s results=%s column=%s%s", what, st.Kind, st.Proto, st.ParamFmt, st.ResFmt, cc, tag)
 	}
 	if aerr != nil {
 		r.Violation(sig("connection through acra broke", nil), detail(map[string]interface{}{"err": aerr.Error()}))
@@ -387,7 +410,7 @@ func runStep(r *ev.Run, w *world, ac, rc *proxyrig.PGClient, st proxyrig.Step, h
 	for _, wr := range st.Writes {
 		c := t.Col(wr.Col)
 		k := wr.Table + "." + wr.Col
-		w.written[k] = append(w.written[k], wr)
+		w.Written[k] = append(w.Written[k], wr)
 		m := wr.V.Marker()
 		if m == nil {
 			continue
@@ -415,7 +438,10 @@ func runStep(r *ev.Run, w *world, ac, rc *proxyrig.PGClient, st proxyrig.Step, h
 			if DiffField >= 0 && DiffField < len(st.ResultCols) {
 				dc = t.Col(st.ResultCols[DiffField])
 			}
-			r.Violation(sig("owner's reply differs from reference: "+classifyDiff(diff), dc), detail(map[string]interface{}{"diff": diff, "forwarded": forwardedSQL(window), "store_rows": fmt.Sprint(w.Store.DB.Snapshot(st.Table)), "ref_rows": fmt.Sprint(w.Ref.DB.Snapshot(st.Table))}))
+			known := r.ViolationK(sig("owner's reply differs from reference: "+classifyDiff(diff), dc), detail(map[string]interface{}{"diff": diff, "forwarded": forwardedSQL(window), "store_rows": fmt.Sprint(w.Store.DB.Snapshot(st.Table)), "ref_rows": fmt.Sprint(w.Ref.DB.Snapshot(st.Table))}))
+			if known && st.Kind == "select" {
+				return true // a listed finding on a read: the databases did not diverge, the session can go on
+			}
 			return false
 		}
 	}
@@ -533,7 +559,8 @@ func valOf(v fakepg.Value, t fakepg.ColType) proxyrig.Val {
 }
 
 // nonOwnerReads: clients with other keys / without keys never receive a plaintext of a configured column they do not own.
-func nonOwnerReads(r *ev.Run, w *world, history []string, sidx int) {
+// NonOwnerReads checks that readers with other keys / without keys never receive plaintexts they do not own.
+func NonOwnerReads(r *ev.Run, w *World, history []string, sidx int) {
 	for _, reader := range []string{other, nokeys} {
 		c, _, err := proxyrig.DialPG(w.Acras[reader].Port)
 		if err != nil {
@@ -568,7 +595,7 @@ func nonOwnerReads(r *ev.Run, w *world, history []string, sidx int) {
 					if col.ClientID == reader {
 						continue // this reader owns the column
 					}
-					for _, wr := range w.written[t.Name+"."+col.Name] {
+					for _, wr := range w.Written[t.Name+"."+col.Name] {
 						m := wr.V.Marker()
 						if m == nil {
 							continue
